@@ -17,7 +17,7 @@ Fixpoint drop_spaces (s : gostring) : gostring :=                  (* TrimLeft(s
   end.
 
 Definition trim_spaces (s : gostring) : gostring :=                (* Trim(s, spaces) *)
-  rev (drop_spaces (rev (drop_spaces s))).
+  frev (drop_spaces (frev (drop_spaces s))).
 
 Fixpoint before_hash (s : gostring) : gostring :=                  (* data[:IndexByte(data, '#')] *)
   match s with
